@@ -69,7 +69,15 @@ func runSolver(ctx context.Context, s solverSpec, timeout int, file string) (sta
 	_ = cmd.Run()
 	ms = time.Since(start).Milliseconds()
 	out = buf.String()
-	first := strings.TrimSpace(strings.SplitN(out, "\n", 2)[0])
+	first := ""
+	for _, l := range strings.Split(out, "\n") {
+		l = strings.TrimSpace(l)
+		if l == "" || strings.HasPrefix(l, "WARNING") || strings.HasPrefix(l, "(warning") || strings.HasPrefix(l, ";") {
+			continue
+		}
+		first = l
+		break
+	}
 	switch first {
 	case "unsat", "sat", "unknown":
 		return first, out, ms
@@ -122,8 +130,14 @@ func solveOne(o *Obligation, file string, cfg SolverConfig) {
 	if t1 > 4 {
 		t1 = 4
 	}
+	if o.Kind == "cover" {
+		t1 = 2
+	}
 	st, out, ms := runSolver(ctx, solvers[0], t1, file)
 	o.Solver, o.Status, o.Millis = solvers[0].name, st, ms
+	if o.Kind == "cover" {
+		return
+	}
 	decided := func(s string) bool {
 		if o.Kind == "cover" {
 			return s == "sat" || s == "unsat"
